@@ -171,6 +171,75 @@ pub fn judge_iter(mut it: v2::TypeLengthValues<'_>, section: &[u8], via: &str, c
     }
 }
 
+/// Iterator adapters drive the same walk: `nth`, `count`, `last` must agree with the reference
+/// walk, and an iterator that reported its end through `nth` must stay ended.
+pub fn judge_adapters(fresh: v2::TypeLengthValues<'_>, section: &[u8], via: &str, case: &dyn Fn() -> String, rec: &mut Recorder) {
+    let (want, end) = tlv_ref(section);
+    let total = want.len() + if end == TlvEnd::Clean { 0 } else { 1 }; // items incl. the error item
+    if total > 3000 {
+        return; // keep it cheap: each nth() is a walk
+    }
+    let r = guard(|| {
+        let mut bad: Vec<(String, String)> = Vec::new();
+        let n = fresh.count();
+        if n != total {
+            bad.push(("count".into(), format!("count() = {}, the reference walk has {} items (error item included)", n, total)));
+        }
+        match (fresh.last(), total) {
+            (None, 0) => {}
+            (Some(Ok(t)), _) if end == TlvEnd::Clean && want.last().map(|w| (w.kind, w.len)) == Some((t.kind, t.value.len())) => {}
+            (Some(Err(_)), _) if end != TlvEnd::Clean => {}
+            (other, _) => bad.push(("last".into(), format!("last() = {:?}", other.map(|r| r.map(|t| (t.kind, t.value.len())))))),
+        }
+        // nth(j) for a few j inside, at and beyond the end
+        let mut js = vec![0usize, total / 2, total.saturating_sub(1), total, total + 1, total + 7];
+        js.dedup();
+        for j in js {
+            let mut it = fresh;
+            let got = it.nth(j);
+            if j < want.len() {
+                match &got {
+                    Some(Ok(t)) if t.kind == want[j].kind && t.value.as_ref() == &section[want[j].start + 3..want[j].start + 3 + want[j].len] => {}
+                    other => bad.push(("nth".into(), format!("nth({}) = {:?}, reference item is kind {:#x} len {}", j, other.as_ref().map(|r| r.as_ref().map(|t| (t.kind, t.value.len()))), want[j].kind, want[j].len))),
+                }
+            } else if j == want.len() && end != TlvEnd::Clean {
+                if !matches!(got, Some(Err(_))) {
+                    bad.push(("nth".into(), format!("nth({}) should be the single error item, got {:?}", j, got.map(|r| r.map(|t| (t.kind, t.value.len()))))));
+                }
+            } else if got.is_some() {
+                bad.push(("nth".into(), format!("nth({}) past the end returned an item", j)));
+            }
+            if j >= total {
+                // the end has been reported: nothing may follow
+                for k in 0..3 {
+                    if let Some(x) = it.next() {
+                        bad.push(("item-after-end".into(), format!("nth({}) returned None, yet next() call #{} afterwards yields {:?}", j, k + 1, x.map(|t| (t.kind, t.value.len())))));
+                        break;
+                    }
+                }
+            }
+        }
+        // skip / step_by are built on nth
+        let mut sk = fresh.skip(total + 2);
+        if sk.next().is_some() || sk.next().is_some() {
+            bad.push(("item-after-end".into(), "skip(past the end) yields an item".into()));
+        }
+        bad
+    });
+    rec.events(10);
+    match r {
+        Ok(bad) => {
+            if bad.is_empty() {
+                rec.class(&format!("{}|adapters(count,last,nth,skip) agree", via), || show(section, 40));
+            }
+            for (rule, d) in bad {
+                rec.violation(&format!("{}:{}", rule, via), case(), skeleton(section), format!("{} via {} on section {:?}: {}", rule, via, show(section, 80), d));
+            }
+        }
+        Err(m) => rec.violation(&format!("panic:{}", via), case(), skeleton(section), format!("iterator adapter panicked on section {:?}: {}", show(section, 80), m)),
+    }
+}
+
 pub fn judge_section(section: &[u8], rec: &mut Recorder) {
     rec.case(hash_bytes(section), section.len() >= 3);
     let (want, end) = tlv_ref(section);
@@ -192,6 +261,7 @@ pub fn judge_section(section: &[u8], rec: &mut Recorder) {
     }
     let case = || enc_case("tlv", &section[..section.len().min(70_100)]);
     judge_iter(v2::TypeLengthValues::from(section), section, "from-slice", &case, rec);
+    judge_adapters(v2::TypeLengthValues::from(section), section, "from-slice", &case, rec);
 }
 
 pub fn judge_header(input: &[u8], rec: &mut Recorder) {
@@ -218,6 +288,7 @@ pub fn judge_header(input: &[u8], rec: &mut Recorder) {
                 rec.violation("section-bytes:header", case(), "header".into(), format!("tlv_bytes() differs from the bytes after the address block on {}", show(input, 60)));
             }
             judge_iter(h.tlvs(), sec_in_h, "header.tlvs()", &case, rec);
+            judge_adapters(h.tlvs(), sec_in_h, "header.tlvs()", &case, rec);
             let o = h.to_owned();
             let ob = o.as_bytes();
             if ob.len() != 16 + len {
@@ -236,11 +307,11 @@ impl Monitor for C11 {
         "C11"
     }
     fn rule(&self) -> &'static str {
-        "cases = TLV sections: all byte strings over {0,1,2,3,0xFF} up to length 8 (exhaustive), well-formed sequences cut at every point, items of 0/1/2/255/256/257/65534/65535 value bytes at exact fit / one short / one extra / one extra item header, declared lengths that overrun, random sections up to 70000 bytes, and the TLV section of valid headers of every family (borrowed and owned); each is iterated through the real iterator and every step compared with the reference walk (kind, value bytes, slice address = section start + offset, error item, nothing after the end; with the hook: cursor before and after every step); non-trivial = section of at least 3 bytes; distinct = distinct sections"
+        "cases = TLV sections: all byte strings over {0,1,2,3,0xFF} up to length 8 (exhaustive), well-formed sequences cut at every point, items of 0/1/2/255/256/257/65534/65535 value bytes at exact fit / one short / one extra / one extra item header, declared lengths that overrun, random sections up to 70000 bytes, and the TLV section of valid headers of every family (borrowed and owned); each is iterated through the real iterator and every step compared with the reference walk (kind, value bytes, slice address = section start + offset, error item, nothing after the end; with the hook: cursor before and after every step), and the iterator adapters count / last / nth / skip are driven on a fresh copy and must agree with the same walk; non-trivial = section of at least 3 bytes; distinct = distinct sections"
     }
     fn streams(&self, tier: Tier) -> Vec<StreamSpec> {
         let mut s = tlv_streams(tier, 10_000);
-        s.push(stream("c11-headers", tier.n(30, 100_000, 10_000_000)));
+        s.push(stream("c11-headers", tier.n(30, 300_000, 10_000_000)));
         s
     }
     fn run_case(&self, stream: &str, idx: u64, seed: u64, rec: &mut Recorder) {
